@@ -77,6 +77,19 @@ def run_case(desc):
         ok, d3 = call(c.get_dimensionality)
         if ok and d3 != d1:
             out.fail("repeatable", "second call returns %r after %r" % (d3, d1))
+    # history: the SAME SBC object clusters the SAME structure again with other (smaller, custom) radii - whatever the
+    # object remembers from the first call must not leak into the clusters of the second
+    sbc0 = r[0]
+    rad2 = 0.6 * np.asarray(rad, float)
+    ok, r2 = call(c01.run_sbc, s, p, rad2, sbc0)
+    if ok:
+        out.cls("history:same-instance-other-radii")
+        for k, c in enumerate(r2[1]):
+            ii = [int(i) for i in c.indices]
+            ok1, d1 = call(c.get_dimensionality)
+            ok2, d2 = call(lambda: mg.get_dimensionality(c.get_atoms(), p["bond_threshold"], radii=rad2[ii]))
+            if ok1 and ok2 and d1 != d2:
+                out.fail("shortcut-equals-direct-after-reuse", "second get_clusters call on the same SBC object with 0.6x radii: cluster %d (%d atoms) shortcut %r, direct evaluation %r" % (k, len(ii), d1, d2))
     out.cls("clusters=%d" % min(len(cl), 3), tag)
     out.nontrivial = bool(cl and touched)
     return out
